@@ -74,6 +74,9 @@ func c18Base() *spec.Program {
 	}}}
 	m("RootK", nil, f("KStr", 1, spec.KString), f("KFar", 2, spec.KMessage, ref("ext.v1.Far")))
 	m("RootL", nil, f("LStr", 1, spec.KString), f("LFars", 3, spec.KMessage, ref("ext.v1.Far"), list))
+	// a selected type that is also nested below another selected type
+	m("SelInner", nil, f("SiStr", 1, spec.KString), f("SiNum", 2, spec.KInt64))
+	m("SelOuter", nil, f("SoStr", 1, spec.KString), f("SoIn", 2, spec.KMessage, ref("SelInner")), f("SoList", 3, spec.KMessage, ref("SelInner"), list))
 	m("RootBExt", nil, f("BxStr", 1, spec.KString), f("BxInner", 2, spec.KMessage, ref("Inner")))
 	m("RootD2", nil, f("D2Str", 1, spec.KString))
 	// a chain of twelve nested messages (singular, list and map links alternate)
@@ -95,7 +98,7 @@ func c18Base() *spec.Program {
 	m("Clean", nil, f("Name", 1, spec.KString), f("Count", 2, spec.KInt64), f("Inner", 3, spec.KMessage, ref("Inner"), nn))
 	m("Unselected", nil, f("UStr", 1, spec.KString))
 	p.Config = spec.Config{
-		Types:          []string{"RootAExt", "RootA", "RootF", "RootB", "RootC", "RootD", "RootE", "RootG", "RootH", "RootI", "RootJ", "RootLone", "RootK", "RootL", "RootDeep", "RootBExt", "RootD2", "Clean"},
+		Types:          []string{"RootAExt", "RootA", "RootF", "RootB", "RootC", "RootD", "RootE", "RootG", "RootH", "RootI", "RootJ", "RootLone", "RootK", "RootL", "SelOuter", "SelInner", "RootDeep", "RootBExt", "RootD2", "Clean"},
 		ComputedFields: []string{"Clean.Count"},
 		// configured although duration_type is not: a field cast to it has no mapping
 		DurationCustomType: spec.DurationCastName,
@@ -233,6 +236,9 @@ type badPos struct {
 	// affected: the roots that reach the message, when the spec's own reachability does not see it (a
 	// message of another package)
 	affected []string
+	// pathAffected: roots that still reach the field after every path key was applied (a selected type
+	// that is also nested: the path keys through the outer type say nothing about the inner type itself)
+	pathAffected []string
 	// one path-form exclusion key per occurrence (README: Root.Field.Sub), by root
 	pathKeys func(field string) []string
 }
@@ -265,6 +271,9 @@ var badPositions = []badPos{
 	}},
 	{name: "nested-in-message-of-another-package", msg: "ext.v1.FarInner", first: true, affected: []string{"RootK", "RootL"}, pathKeys: func(f string) []string {
 		return []string{"RootK.KFar.FarIn." + f, "RootL.LFars.FarIn." + f}
+	}},
+	{name: "selected-type-nested-in-selected-type", msg: "SelInner", pathAffected: []string{"SelInner"}, pathKeys: func(f string) []string {
+		return []string{"SelOuter.SoIn." + f, "SelOuter.SoList." + f}
 	}},
 	{name: "embedded", msg: "EmbX", pathKeys: nil},
 	// README: options below an embedded field are keyed by the name of the embedding message
@@ -396,7 +405,7 @@ func C18RealCases(seed uint64, tier string) ([]*Case, map[string]int) {
 					pa.Config.ExcludeFields = append(pa.Config.ExcludeFields, keys...)
 					kinds["excluded/path-key"]++
 					cases = append(cases, &Case{Property: "C18", Clause: "excluded/path-key/" + k.name + "@" + pos.name, Seed: seed, Tier: tier, Program: pa,
-						Ref: refRun(b), Run: runFrom(pa.Config.Render(nil, nil)), Expect: Expect{Kind: "atomic", Roots: p.Config.Types, Restored: restoredRoots}})
+						Ref: refRun(b), Run: runFrom(pa.Config.Render(nil, nil)), Expect: Expect{Kind: "atomic", Roots: p.Config.Types, Restored: restoredRoots, Affected: pos.pathAffected}})
 					// a path key restores only the occurrence it names: every other occurrence still drops its root
 					partial := tier == "thorough" || strings.HasPrefix(k.name, "time-without") || strings.HasPrefix(k.name, "map-int32") || strings.HasPrefix(k.name, "custom-duration-cast-without")
 					if len(keys) > 1 && partial {
@@ -404,9 +413,16 @@ func C18RealCases(seed uint64, tier string) ([]*Case, map[string]int) {
 							pp := cloneProgram(p)
 							pp.Config.ExcludeFields = append(pp.Config.ExcludeFields, key)
 							restored := key[:strings.Index(key, ".")]
+							nKeysOfRoot := 0
+							for _, k2 := range keys {
+								if strings.HasPrefix(k2, restored+".") {
+									nKeysOfRoot++
+								}
+							}
 							var still []string
 							for _, a := range aff {
-								if a != restored {
+								// a root is restored once every occurrence below it is excluded
+								if a != restored || nKeysOfRoot > 1 {
 									still = append(still, a)
 								}
 							}
